@@ -547,6 +547,10 @@ class Interp(ExprMixin):
             it2 = it.args[0]
             if it.op == "iter":
                 it = it2
+        if isinstance(it, Sym) and it.op == "set" and it.args and isinstance(it.args[0], tuple) and \
+                not any(isinstance(x, Sym) and x.op in ("elemof", "star") for x in it.args[0]):
+            self.event("iterate_set", where=module.loc(node))
+            it = PyList(list(it.args[0]))
         if isinstance(it, Const) and isinstance(it.v, (tuple, list, frozenset, set, dict, str)):
             if isinstance(it.v, (frozenset, set)):
                 self.event("iterate_set", where=module.loc(node))
